@@ -40,6 +40,7 @@ TrInit ==
   /\ age = [w \in net.wires |-> Cap]
   /\ quiet = Cap
   /\ since = [s \in Switches |-> HoldCap]
+  /\ flight = {}
   /\ last = NoObs
   /\ hist = <<>>
 
@@ -86,6 +87,20 @@ TrWire == LET e == Ev IN e.a \in {"Cut", "Restore"} /\
             THEN (IF e.a = "Cut" THEN Cut(e.lk) ELSE Restore(e.lk)) /\ Ok1
             ELSE Stop("changed-without-cause")
 
+\* a probe is delayed: no controller code runs, the observation must be unchanged
+TrDelay == LET e == Ev IN e.a = "Delay" /\
+            IF e.wf /\ ToSet(e.adj) = adj /\ ToSet(e.nf) = nf /\ e.evs = <<>>
+            THEN Delay(e.lk) /\ Ok1
+            ELSE Stop("changed-without-cause")
+\* the delayed probe reaches the controller: Topo's Late(w, R) = Env /\ permitted /\ Do
+TrLate == LET e == Ev
+              R == Obs(e)
+              why == LateReason(R, e.lk)
+          IN e.a = "Late" /\
+             IF ~e.wf THEN Stop("malformed-observation")
+             ELSE IF why = "ok" THEN LateEnv(e.lk) /\ LateDo(e.lk, R) /\ Ok1
+             ELSE LateEnv(e.lk) /\ LateDo(e.lk, R) /\ Note(why)
+
 \* (in a state that already violates the forest clauses the frame may loop:
 \* the walk count is not evaluated there, the step is passed over - the
 \* violation itself has been reported at the step that produced the state)
@@ -99,7 +114,7 @@ TrFlood == LET e == Ev IN e.a = "Flood" /\
 \* (after Stop() nothing matches any more: l stays and the event stays violated)
 TrNext == /\ l <= Len(Traces[tid])
           /\ bad \notin {"malformed-observation", "changed-without-cause"}
-          /\ (TrUp \/ TrDown \/ TrAdv \/ TrWire \/ TrFlood)
+          /\ (TrUp \/ TrDown \/ TrAdv \/ TrWire \/ TrFlood \/ TrDelay \/ TrLate)
 TrSpec == TrInit /\ [][TrNext]_tvars
 
 Progress == TLCSet(tid, IF TLCGet(tid) < l - 1 THEN l - 1 ELSE TLCGet(tid))
